@@ -215,6 +215,12 @@ def handle (j : Json) : R Json := do
     -- the model's notion of a consistent property set (cross-checked against the harness's)
     let p ← propsOf (← getObj j "props")
     pure (Json.mkObj [("ok", Json.bool (consistent p))])
+  | "judge" =>
+    -- the predicates the theorems talk about, on one (property set, configuration, value)
+    let p ← propsOf (← getObj j "props")
+    let cfg ← cfgOf (← getObj j "cfg")
+    let v ← valOf (← getObj j "v")
+    pure (Json.mkObj [("consistent", Json.bool (consistent p)), ("conf", Json.bool (conf cfg p v))])
   | o => throw s!"char: unknown op {o}"
 
 end Hap.Drv.Char
